@@ -7,6 +7,11 @@ lean/Gen/DfaCerts.lean is regenerated with one `decide +kernel` theorem per expr
 Tie: for enumerated and random expressions the verified checker is *evaluated* by the driver
 (not kernel-checked) on the automaton the real code built; accept/reject of malformed expressions
 is compared with the model's reading of the grammar + dead-end rule.
+Tie of the constructor as a whole: for every spec of the pools (family, random, enumerated) and for variants with malformed
+content at random positions of the node loop (`schemas.malform_content`, then `schemas.mutate_spec`), `Schema(spec)` against
+`buildSchema` (lean/PM/SchemaBuild.lean): the full dump (`SchemaInfo.dump()`), or the kind of refusal — the table compiler's
+ValueErrors / SyntaxError, the content parser's SyntaxErrors (syntax / unknown name / mixing) and the three other
+exceptions it dies with on truncated input (TypeError, AssertionError, ValueError of int()), the dead-end check.
 Search: the real matcher against an independent Python reading of the grammar (validator.py) on
 child sequences; disagreements are replayed as a child sequence.
 """
